@@ -21,6 +21,9 @@ enum Op {
     /// LOAD "F": the file's lines (after the first, separated by U+0001) replace the store, each
     /// acting as if typed into an empty interpreter
     Load(Vec<String>),
+    /// a LOAD the host cannot complete (no such file, or a file with a line the loader refuses):
+    /// an error, and the store stays as it is
+    FailedLoad,
 }
 
 const REJECTED_FORMS: &[&str] = &["DELETE:LIST", "DELETE :PRINT 1", "IF 1 THEN DELETE ELSE PRINT 1", "DELETE:DELETE 0-", "DELETE:NEW", "IF 0 THEN PRINT 1 ELSE DELETE:PRINT 2"];
@@ -64,6 +67,9 @@ fn parse_op(line: &str) -> Op {
     if REJECTED_FORMS.contains(&line) {
         return Op::Rejected;
     }
+    if line == "LOAD \"NOSUCH\"" || line == "LOAD \"BAD\"" {
+        return Op::FailedLoad;
+    }
     if line.starts_with("LOAD \"F\"") {
         return Op::Load(line.split('\u{1}').skip(1).map(|x| x.to_string()).collect());
     }
@@ -105,6 +111,7 @@ fn check_history(lines: &[String], full_check_numbers: &[u32]) -> Result<bool, (
     let mut nontrivial = false;
     let mut o = Opts::default();
     for (step, l) in lines.iter().enumerate() {
+        o.files.insert("BAD".to_string(), "10 PRINT 1\nPRINT 2\n20 PRINT 3".to_string());
         if let Op::Load(file) = parse_op(l) {
             o.files.insert("F".to_string(), file.join("\n"));
             term.line("LOAD \"F\"", &mut o);
@@ -180,6 +187,14 @@ fn check_history(lines: &[String], full_check_numbers: &[u32]) -> Result<bool, (
                     return Err(("load-printed-something".into(), format!("{}: {:?}", where_, flat(&evs))));
                 }
                 if file.iter().any(|fl| matches!(parse_op(fl), Op::Bare(_))) {
+                    nontrivial = true;
+                }
+            }
+            Op::FailedLoad => {
+                if errs_of(&evs) == 0 || !listed(&evs).is_empty() {
+                    return Err(("failed-load-not-reported".into(), format!("{}: expected an error and nothing listed, got {:?}", where_, flat(&evs))));
+                }
+                if !model.is_empty() {
                     nontrivial = true;
                 }
             }
@@ -360,7 +375,8 @@ fn check_random(t: &mut Tape, ctx: &Ctx) -> Outcome {
         }
     };
     for _ in 0..n {
-        match t.weighted(&[5, 2, 3, 3, 1]) {
+        match t.weighted(&[5, 2, 3, 3, 1, 1]) {
+            5 => lines.push(t.pick(&["LOAD \"NOSUCH\"", "LOAD \"BAD\""]).to_string()),
             4 => {
                 // a file: numbered lines in any order, repeated numbers, bare numbers, blank lines
                 let nf = t.below(9);
